@@ -106,9 +106,88 @@ fn recs() -> &'static [TR; NREC] {
     Box::leak(Box::new(std::array::from_fn(|i| TR(i))))
 }
 
+/// Adversarial user lexers that ignore the expected set (C15).
+///  mode 0: always a zero-width STOP; mode 1: kind derived from the position, one char long, STOP at
+///  the end; mode 2: like 1 but nothing at the end.
+pub struct CustomLexer {
+    pub mode: usize,
+    pub seed: usize,
+}
+
+pub fn custom_tokens<'i>(
+    mode: usize,
+    seed: usize,
+    nterms: usize,
+    input: &'i str,
+    position: Position,
+) -> Vec<Token<'i, str, Tk>> {
+    let p = position.pos;
+    let stop = || Token {
+        kind: Tk(0),
+        value: &input[p..p],
+        span: (&input[p..p]).span_from(position),
+    };
+    if mode == 0 {
+        return vec![stop()];
+    }
+    if p >= input.len() {
+        return if mode == 1 { vec![stop()] } else { vec![] };
+    }
+    let ch = input[p..].chars().next().unwrap();
+    let v = &input[p..p + ch.len_utf8()];
+    let kind = if nterms > 1 {
+        1 + ((p * 7 + seed) % (nterms - 1))
+    } else {
+        0
+    };
+    vec![Token {
+        kind: Tk(kind),
+        value: v,
+        span: v.span_from(position),
+    }]
+}
+
+impl<'i, C: Context<'i, str, St, Tk>> Lexer<'i, C, St, Tk> for CustomLexer {
+    type Input = str;
+    fn next_tokens(
+        &self,
+        context: &mut C,
+        input: &'i str,
+        _expected: Vec<(Tk, bool)>,
+    ) -> Box<dyn Iterator<Item = Token<'i, str, Tk>> + 'i> {
+        Box::new(
+            custom_tokens(self.mode, self.seed, tab().nterms, input, context.position()).into_iter(),
+        )
+    }
+}
+
+fn lr_result(input: &str, r: rustemo::Result<TN>) -> String {
+    match r {
+        Ok(n) => {
+            let mut s = String::from("ok ");
+            tree(input, &n, &mut s);
+            s
+        }
+        Err(e) => perr(e),
+    }
+}
+
+pub fn run_lr_custom(input: &str, partial: bool, mode: usize, seed: usize) -> String {
+    let t = tab();
+    let p: LRParser<LCtx, St, Pk, Tk, Nk, Def, _, TreeBuilder<str, Pk, Tk>, str> = LRParser::new(
+        &DEF,
+        St(0),
+        partial,
+        t.layout.is_some(),
+        CustomLexer { mode, seed },
+        TreeBuilder::new(),
+    );
+    lr_result(input, p.parse(input))
+}
+
 pub fn run_lr(input: &str, partial: bool) -> String {
     let t = tab();
-    let lexer: StringLexer<LCtx, St, Tk, TR, NREC> = StringLexer::new(t.skip_ws, recs());
+    let lexer: StringLexer<LCtx, St, Tk, TR, NREC> = StringLexer::new(t.skip_ws && t.layout.is_none(), recs());
     let p: LRParser<LCtx, St, Pk, Tk, Nk, Def, _, TreeBuilder<str, Pk, Tk>, str> = LRParser::new(
         &DEF,
         St(0),
@@ -130,11 +209,16 @@ pub fn run_lr(input: &str, partial: bool) -> String {
 /// GLR: `ok <solutions> <ntrees printed> <tree>;<tree>...  iter=<same?> beyond=<none?>`
 pub fn run_glr(input: &str, partial: bool, max_trees: usize) -> String {
     let t = tab();
-    let lexer: StringLexer<GCtx, St, Tk, TR, NREC> = StringLexer::new(t.skip_ws, recs());
+    let lexer: StringLexer<GCtx, St, Tk, TR, NREC> = StringLexer::new(t.skip_ws && t.layout.is_none(), recs());
     let g: GlrParser<St, _, Pk, Tk, Nk, Def, str, TreeBuilder<str, Pk, Tk>> =
         GlrParser::new(&DEF, partial, t.layout.is_some(), lexer);
     match g.parse(input) {
         Ok(f) => {
+            if max_trees == 0 {
+                // C15: only the outcome of parse() itself is of interest (counting solutions of a
+                // highly ambiguous forest is exponential in the implementation)
+                return "ok parse-only".into();
+            }
             let n = f.solutions();
             let mut s = format!("ok {}", n);
             let k = n.min(max_trees);
